@@ -24,7 +24,7 @@ pub(super) struct TimerQueue {
 pub(crate) struct TimerSlot {
     time: SimTime,
     entrys: RefCell<Vec<TimerSlotEntry>>,
-    queue: Arc<TimerQueue>,
+    queue: Weak<TimerQueue>,
 }
 
 #[derive(Debug)]
@@ -111,7 +111,7 @@ impl TimerQueue {
                 }
             }
             Err(insert_at) => {
-                let slot = TimerSlot::new(time, self.clone());
+                let slot = TimerSlot::new(time, Arc::downgrade(self));
                 slot.add(entry);
 
                 pending.insert(insert_at, Arc::new(slot));
@@ -157,7 +157,7 @@ impl TimerQueue {
 }
 
 impl TimerSlot {
-    fn new(time: SimTime, queue: Arc<TimerQueue>) -> Self {
+    fn new(time: SimTime, queue: Weak<TimerQueue>) -> Self {
         Self {
             time,
             queue,
@@ -195,8 +195,9 @@ impl TimerSlotEntryHandle {
 
     pub(super) fn reset(self, new_deadline: SimTime) -> Option<TimerSlotEntryHandle> {
         let handle = self.handle.upgrade()?;
+        let queue = handle.queue.upgrade()?;
         let entry = handle.remove(self.id)?;
-        Some(handle.queue.add(entry, new_deadline))
+        Some(queue.add(entry, new_deadline))
     }
 }
 
